@@ -56,7 +56,7 @@ impl Check for C13 {
         "C13"
     }
     fn rule(&self) -> String {
-        format!("the full matrix of {} points = write side {{none, plain, sharded}} x 0-2 read-only levels each plain/sharded x each level holding {{nothing, A, B}} x operation {{get, touch, ensure, get_or_update x {{Accept, Promote, Replace}}, set, put, set_temp_file, put_temp_file}} x populate outcome {{value C, NotFound, Other error}}, each point run on a fresh simulated filesystem (quick: 100 times; thorough: 5000 times) with swarm dimensions auto_sync, value sizes, atime policy, granularity, umask, judge read length and reader noise by a second process; judged against a reference model of the stack (returned bytes, judge argument, populate's old argument, before/after snapshots of every level); one run in 200 is a concurrent run (stacked cache, read-only level pre-populated, peers putting/setting the same keys) in which every Replace must return exactly the value it populated. Every point is non-trivial; distinct = matrix point", n13())
+        format!("the full matrix of {} points = write side {{none, plain, sharded}} x 0-2 read-only levels each plain/sharded x each level holding {{nothing, A, B}} x operation {{get, touch, ensure, get_or_update x {{Accept, Promote, Replace}}, set, put, set_temp_file, put_temp_file}} x populate outcome {{value C, NotFound, Other error}}, each point run on a fresh simulated filesystem (quick: 100 times; thorough: 5000 times) with swarm dimensions auto_sync, value sizes, atime policy, granularity, umask, judge read length and reader noise by a second process; judged against a reference model of the stack (returned bytes, judge argument, populate's old argument, before/after snapshots of every level); one run in 200 is a concurrent run (stacked cache, read-only level pre-populated, peers putting/setting the same keys) in which every Replace must return exactly the value it populated and no insert-if-absent operation (put, ensure, Accept, Promote) may replace an entry that exists when it publishes. Every point is non-trivial; distinct = matrix point", n13())
     }
     fn runs(&self, tier: Tier) -> u64 {
         match tier {
@@ -104,6 +104,7 @@ fn c13_concurrent(tape: &mut Tape, ctx: &RunCtx) -> RunOut {
         preexisting: true,
         clock_small: true,
         sampled_faults: false,
+        clock_jump: false,
         debris: false,
         focus: 0,
     };
@@ -128,6 +129,9 @@ fn c13_concurrent(tape: &mut Tape, ctx: &RunCtx) -> RunOut {
                 v = Some(Violation::new("replace-result", format!("get_or_update judged Replace and populated value #{}, but returned {}: {}", tag, describe_bytes(data), r.short())));
             }
         }
+    }
+    if v.is_none() {
+        v = putlike_overwrite(&run);
     }
     out.count("replace_operations", replaces);
     out.nontrivial = replaces > 0;
